@@ -12,6 +12,7 @@ from .. import common, solvex, cfgs, monitors as mon
 LEVEL = "exploration"
 MOD = "C03"
 SITE_EXEMPT = {}     # evaluation sites this check cannot reach (site -> reason); see solvex.site_floor
+EXIT_EXEMPT = {}     # exit sites this check cannot reach; see solvex.exit_floor
 
 BOX = {"lo": [-1.5, -0.5], "hi": [0.9, 1.7]}
 MODES = {
@@ -90,6 +91,9 @@ def _configs(tier, salts):
                                     depth = 2
                         plan = {"depth": depth, "letters": LETTERS if depth < 2 else ["best", "tie", "x3", "nan"]}
                         out.append((cfg, plan))
+        # geometries whose trust-region step can increase the model, every single deviation with 'best' / 'x0.3'
+        if salt == 0 or tier == "thorough":
+            out += cfgs.tr_increase_cfgs(salt, restarts=("none", "hard_new", "soft"))
         # the broad option bank (every documented parameter at a non-default value somewhere)
         if salt == 0 or tier == "thorough":
             for name, cfg in cfgs.broad_cfgs(salt=salt, budgets=(7, 25, 60) if tier == "quick" else (4, 7, 13, 25, 40, 60, 120),
@@ -113,6 +117,7 @@ def run(report, tier, seed):
     cps = _configs(tier, salts)
     res = solvex.explore(report, MOD, cps, classify=classify)
     solvex.site_floor(report, res["tags"], exempt=SITE_EXEMPT)
+    solvex.exit_floor(report, res["tags"], exempt=EXIT_EXEMPT)
     tags = res["tags"]
     cov = report.coverage
     exits = [t for t in tags if t.startswith("exit:")]
